@@ -169,7 +169,10 @@ class Check(PropertyCheck):
                  'participant sees exactly a depth-first enter/leave walk of the documented traversed sub-tree '
                  '(C19_walkabout_projection), global entry/exit order is the documented one (C19_walkabout_enter_order/'
                  '_leave_order), only the root SkipSiblings escapes, walk() likewise, and the builder scope stack is '
-                 'restored (C19_stack_empty). Tie to the source, two ways: (a) harness/gen/gen_c19_code.py translates the bodies of '
+                 'restored (C19_stack_empty); the clauses of the property text follow as corollaries: every node entered at most once and only '
+                 'tree nodes (C19_entered_at_most_once), an extension leaves exactly what it entered (C19_extension_leaves_what_it_entered), '
+                 'its calls are well bracketed (C19_extension_calls_well_bracketed), the main visitor misses exactly the departures it '
+                 'skipped (C19_main_leaves_unless_skipped). Tie to the source, two ways: (a) harness/gen/gen_c19_code.py translates the bodies of '
                  'Visitor.visit/depart/walk/walkabout statement by statement (fail-closed; _BaseVisitor dispatch, ExtList.add and the '
                  'exception hierarchy pinned) into the deep-embedded language of Model/VisitorIR.v on every run, and '
                  'C19_code_walkabout_is_model / _walk_ / _visit_ / _depart_ prove that interpreting THAT code is the model, for all '
